@@ -136,7 +136,8 @@ fn service_request(kind: u8, h: RequestHeader, counter: i32, new_node: &NodeId) 
                 parent_node_id: ObjectId::ObjectsFolder.into(),
                 reference_type_id: ReferenceTypeId::Organizes.into(),
                 requested_new_node_id: new_node.clone().into(),
-                browse_name: QualifiedName::from(format!("c19n{}", counter).as_str()),
+                // unique below the Objects folder for the whole worker: the address space is shared by the cases
+                browse_name: QualifiedName::from(format!("{}", new_node).as_str()),
                 node_class: NodeClass::Object,
                 node_attributes: object_attributes("n"),
                 type_definition: ObjectTypeId::BaseObjectType.into(),
